@@ -287,7 +287,7 @@ def check(ctx):
     if ok:
         s1 = find("slots = self.__class__.get_all_slots()", gs, nested=False)
         s2 = find("slots = self.__class__.get_all_slots()", ss, nested=False)
-        r1 = any(Pat("tuple(getattr(self, sl) for sl in slots)").match(r.value) is not None for r in returns(gs))
+        r1 = (all(Pat("tuple(getattr(self, sl) for sl in slots)").match(r.value) is not None for r in returns(gs)) and bool(returns(gs)))
         z = [l for l in walk_no_nested(ss) if isinstance(l, ast.For) and Pat("zip(slots, state)").match(l.iter) is not None and bool(find("setattr(self, sl, val)", l))]
         ok = bool(s1 and s2) and r1 and bool(z)
     ctx.ob("TAB.pickle.slots", task.node, "__getstate__ and __setstate__ iterate get_all_slots() in the same order", ok)
@@ -297,7 +297,7 @@ def check(ctx):
     ok = "_dependencies" in ann and "key" in ann and slots_decl is not None and unparse(slots_decl) == "tuple(__annotations__)"
     ctx.ob("TAB.pickle.dependencies-slot", gn.node, "`_dependencies` and `key` are slots of every GraphNode", ok)
     gas = gn.own_methods.get("get_all_slots")
-    ok = gas is not None and any(isinstance(l, ast.For) and unparse(l.iter) == "cls.mro()" for l in walk_no_nested(gas)) and any(Pat("sorted(set(slots))").match(r.value) is not None for r in returns(gas))
+    ok = gas is not None and any(isinstance(l, ast.For) and unparse(l.iter) == "cls.mro()" for l in walk_no_nested(gas)) and (all(Pat("sorted(set(slots))").match(r.value) is not None for r in returns(gas)) and bool(returns(gas)))
     ctx.ob("TAB.pickle.all-slots", gas or gn.node, "get_all_slots unions __slots__ over the MRO, deterministically ordered", ok)
     nsub = 0
     for ci in model.subclasses(gn, "dask/_task_spec"):
